@@ -324,6 +324,9 @@ def build(case, part_cls, learner_cls=None, box_obj=None):
     P = case.get("params", {})
     n = case["n"]
     dom = box_obj if box_obj is not None else copy.deepcopy(case["box"])
+    if case.get("alias_box") and box_obj is None:
+        # the common idiom domain = [[lo, hi]] * d: one interval list object stands for every coordinate
+        dom = [dom[0]] * len(dom)
     if a == "T_HOO":
         return T_HOO(nu=P["nu"], rho=P["rho"], rounds=n, domain=dom, partition=part_cls)
     if a == "HCT":
@@ -387,7 +390,7 @@ def smallest_cap(algo, K, n, k=1):
 # rewards
 
 OPEN_FAMILIES = ["neg", "const", "zero", "tied", "noisy", "large", "large_off", "unit", "drift", "altext",
-                 "incr", "decr", "best_first", "best_last", "twoval"]
+                 "incr", "decr", "best_first", "best_last", "twoval", "quant5", "bern"]
 HUGE_FAMILIES = ["huge"]
 CLOSED_FAMILIES = ["cl_hump", "cl_sine", "cl_garland", "cl_step"]
 
@@ -402,6 +405,10 @@ def open_rewards(fam, seed, T):
         return np.zeros(T)
     if fam == "tied":
         return rng.choice([0.0, 1.0, -1.0], size=T)
+    if fam == "quant5":
+        return rng.choice([0.0, 0.25, 0.5, 0.75, 1.0], size=T)
+    if fam == "bern":
+        return rng.choice([0.0, 1.0], size=T, p=[0.6, 0.4])
     if fam == "twoval":
         return rng.choice([-2.5, -0.5], size=T)
     if fam == "noisy":
@@ -485,7 +492,7 @@ def reward_fn(case):
 # ---------------------------------------------------------------------------------------------------------------
 # generators for boxes and parameters
 
-BOX_KINDS = ["unit", "shifted", "negative", "tiny", "huge", "mixed", "dyadic"]
+BOX_KINDS = ["unit", "shifted", "negative", "tiny", "huge", "mixed", "dyadic", "ulps"]
 
 
 def gen_box(rng, dim, kind=None):
@@ -504,6 +511,14 @@ def gen_box(rng, dim, kind=None):
             lo, w = float(rng.choice([0.0, -1e6, 1e6])), 1e6 * float(rng.uniform(0.5, 2))
         elif kind == "mixed":
             lo, w = float(rng.choice([0.0, -1.0, 10.0, -1e3, 1e6, -1e-3])), float(10 ** rng.uniform(-6, 6))
+        elif kind == "ulps":
+            # a box only a few floats wide (legal: lo < hi); cells degenerate to zero width after a few splits
+            lo = float(rng.choice([1.0, -3.7, 1e6, 0.1, -1e-3]))
+            hi = lo
+            for _ in range(int(rng.integers(1, 6))):
+                hi = float(np.nextafter(hi, np.inf))
+            box.append([lo, hi])
+            continue
         elif kind == "dyadic":
             lo, w = float(rng.choice([0.0, -1.0, 0.5, -4.0, 8.0])), float(rng.choice([1.0, 2.0, 0.5, 4.0]))
         else:
@@ -557,7 +572,8 @@ def case_sig(case):
         return v
     P = {k: r(v) for k, v in sorted(case.get("params", {}).items())}
     return json.dumps([case["algo"], case["part"], len(case["box"]), case.get("box_kind"), case["n"], case["T"],
-                       case["reward"]["family"], P, case.get("inject"), case.get("np_seed")], sort_keys=True)
+                       case["reward"]["family"], P, case.get("inject"), case.get("np_seed"), case.get("alias_box")],
+                      sort_keys=True)
 
 
 # ---------------------------------------------------------------------------------------------------------------
